@@ -286,6 +286,9 @@ func parseMp4Init(w io.Writer, parsedMp4 *mp4.File, verbose bool) (trackID uint3
 			}
 			switch codec {
 			case "avc":
+				if stsd.AvcX.AvcC == nil { // no configuration record: look in the samples
+					return trackID, codec, false, nil
+				}
 				spsNalus := stsd.AvcX.AvcC.SPSnalus
 				ppsNalus := stsd.AvcX.AvcC.PPSnalus
 				if len(spsNalus) == 0 {
@@ -294,6 +297,9 @@ func parseMp4Init(w io.Writer, parsedMp4 *mp4.File, verbose bool) (trackID uint3
 				err := printAvcPS(w, spsNalus, ppsNalus, verbose)
 				return trackID, codec, true, err
 			case "hevc":
+				if stsd.HvcX.HvcC == nil { // no configuration record: look in the samples
+					return trackID, codec, false, nil
+				}
 				vpsNalus := stsd.HvcX.HvcC.GetNalusForType(hevc.NALU_VPS)
 				spsNalus := stsd.HvcX.HvcC.GetNalusForType(hevc.NALU_SPS)
 				ppsNalus := stsd.HvcX.HvcC.GetNalusForType(hevc.NALU_PPS)
